@@ -361,6 +361,36 @@ fn inverse_inconsistent(i: usize, cfg: &Cfg, log: &mut Log) {
   }
 }
 
+/// one history operation at instant a: the eight characters by a drawn route
+fn history_op(a: i64, rng: &mut Rng) -> (String, Vec<String>, u64) {
+  let label = format!("{}", fmt_abs(a));
+  if cal::reform_era_near(a.div_euclid(86400)) || window_has_jie(a - 2, a + 2) {
+    return (format!("skip({})", label), vec![], 0);
+  }
+  let want = match four_pillars(a, false) {
+    Some(w) => w,
+    None => return (format!("skip({})", label), vec![], 0),
+  };
+  let want2 = four_pillars(a, true).unwrap_or(want);
+  let st = st_of_abs(a);
+  let route = rng.below(4);
+  let got = match route {
+    0 => ec_idx(&st.get_lunar_hour().get_eight_char()),
+    1 => {
+      let sh = st.get_sixty_cycle_hour();
+      [sh.get_year().get_index() as i64, sh.get_month().get_index() as i64, sh.get_day().get_index() as i64, sh.get_sixty_cycle().get_index() as i64]
+    }
+    2 => ec_idx(&st.get_sixty_cycle_hour().get_eight_char()),
+    _ => ec_idx(&LunarSect2EightCharProvider::new().get_eight_char(st.get_lunar_hour())),
+  };
+  let w = if route == 3 { want2 } else { want };
+  let mut bad = vec![];
+  if got != w {
+    bad.push(format!("{}, expected {}", names(got), names(w)));
+  }
+  (format!("{}({})", ["lunar-hour", "instant-view", "instant-view-chars", "sect2"][route], label), bad, 1)
+}
+
 pub fn run(cfg: &Cfg) -> (Log, Meta) {
   crate::util::set_thread_cap(10);
   let mut log = Log::new();
@@ -395,6 +425,9 @@ pub fn run(cfg: &Cfg) -> (Log, Meta) {
   log.merge(par_range(cfg.tier.pick(300usize, 5_000usize), 20, |i, l| inverse_inconsistent(i, cfg, l)));
   let ns = cfg.tier.pick(4_000usize, 150_000usize);
   log.merge(par_range(ns, 50, |i, l| stepped(i, cfg, l)));
+  let nh = cfg.tier.pick(20_000usize, 300_000usize);
+  log.merge(par_range(nh, 50, |i, l| crate::history::instant_walk("C09", "a sequence of eight-character look-ups at related instants on one thread", i, cfg.seed, cal().dn(1, 2, 10) * 86400, cal().dn(9998, 12, 31) * 86400, l, history_op)));
+  log.floor("history.answers_judged", cfg.tier.pick(150_000, 2_000_000));
   let _ = (FIRST, LAST);
   log.floor("table.day_pillar_hour_cells", 8_640);
   log.floor("compose.instants", cfg.tier.pick(2_000, 100_000));
@@ -408,11 +441,13 @@ pub fn run(cfg: &Cfg) -> (Log, Meta) {
   }
   let meta = Meta {
     rule: format!(
-      "exhaustive table: 3 x 60 consecutive days (all 60 day pillars, incl. the 1582 cut-over) x 24 hours x minutes {{00:00, 59:59}}: hour branch, Five-Rats stem with the 23:00 roll, instant-level day pillar, lunar day pillar unrolled, index in day, name, both routes; composition: {} seeded instants (1/8 in 22:00-01:00, 1/8 within 2 h of a Jie/Lichun instant) - four pillars vs first-principles oracle, eight characters via LunarHour, SixtyCycleHour, both providers, name round trip; inverse search: {} seeded (instant, year range) queries (ranges +-0..2, +-0..61, +-0..120, +-1) - every returned instant has the characters, and one lies in the queried double-hour unless that contains a Jie instant; {} inconsistent queries must return nothing; stepped: {} seeded chains of 1..3 LunarHour::next steps (-40..40 double-hours) from hours that first answered a drawn subset of their getters - eight characters (both sects), instant view, own hour pillar and civil instant of each stepped value vs the oracle at the instant 7200*n s later. distinct_nontrivial = distinct instants / queries plus the 23h and 0h table cells.",
+      "exhaustive table: 3 x 60 consecutive days (all 60 day pillars, incl. the 1582 cut-over) x 24 hours x minutes {{00:00, 59:59}}: hour branch, Five-Rats stem with the 23:00 roll, instant-level day pillar, lunar day pillar unrolled, index in day, name, both routes; composition: {} seeded instants (1/8 in 22:00-01:00, 1/8 within 2 h of a Jie/Lichun instant) - four pillars vs first-principles oracle, eight characters via LunarHour, SixtyCycleHour, both providers, name round trip; inverse search: {} seeded (instant, year range) queries (ranges +-0..2, +-0..61, +-0..120, +-1) - every returned instant has the characters, and one lies in the queried double-hour unless that contains a Jie instant; {} inconsistent queries must return nothing; stepped: {} seeded chains of 1..3 LunarHour::next steps (-40..40 double-hours) from hours that first answered a drawn subset of their getters - eight characters (both sects), instant view, own hour pillar and civil instant of each stepped value vs the oracle at the instant 7200*n s later; histories: {} seeded single-thread sequences of 6..16 eight-character look-ups (LunarHour, instant view, its characters, Sect2 provider) at related instants - {}. distinct_nontrivial = distinct instants / queries plus the 23h and 0h table cells.",
       nc,
       ni,
       cfg.tier.pick(300, 5_000),
-      ns
+      ns,
+      nh,
+      crate::history::WALK_TEXT
     ),
     assumptions: vec!["term instants from the library; Five Tigers / Five Rats rhymes encoded by name in the harness and self-tested on 2024-02-10 12:00".into(), "instants on the 160 reform-era civil days listed under C02/C07 are not drawn".into(), "instants within 2 s of a Jie instant are not judged (the library rounds term instants to the second)".into()],
     exhaustive: false,
